@@ -10,11 +10,13 @@ from .pyfront import match, same, walk_local, dotted
 from .flowq import reaching_defs, def_value, assigned_at
 
 _NEG = {ast.IsNot: ast.Is, ast.NotEq: ast.Eq, ast.NotIn: ast.In}
-_SWAP_FALSE = {ast.GtE: ast.Lt, ast.Gt: ast.LtE}    # a >= b  ==  not (a < b)
 
 
 def canon(test, truth=True):
-    """(canonical source text, truth) of an atomic test taken with ``truth``."""
+    """(canonical source text, truth) of an atomic test taken with ``truth``.
+    Negations are folded into the truth value; `is not`/`!=`/`not in` become
+    the positive operator; every ordering comparison is expressed with `<`
+    (a > b == b < a; a <= b == not (b < a); a >= b == not (a < b))."""
     t = test
     while isinstance(t, ast.UnaryOp) and isinstance(t.op, ast.Not):
         t = t.operand
@@ -25,40 +27,86 @@ def canon(test, truth=True):
         if type(op) in _NEG:
             op = _NEG[type(op)]()
             truth = not truth
-        elif type(op) in _SWAP_FALSE:
-            op = _SWAP_FALSE[type(op)]()
+        elif isinstance(op, ast.Gt):
+            l, r, op = r, l, ast.Lt()
+        elif isinstance(op, ast.LtE):
+            l, r, op = r, l, ast.Lt()
             truth = not truth
-        # order symmetric operators
+        elif isinstance(op, ast.GtE):
+            op = ast.Lt()
+            truth = not truth
         if isinstance(op, (ast.Is, ast.Eq)):
             a, b = norm_src(l), norm_src(r)
-            if b < a and not (isinstance(r, ast.Constant)):
-                l, r = r, l
             if isinstance(l, ast.Constant) and not isinstance(r, ast.Constant):
+                l, r = r, l
+            elif not isinstance(r, ast.Constant) and not isinstance(l, ast.Constant) and b < a:
                 l, r = r, l
         t = ast.Compare(left=l, ops=[op], comparators=[r])
     return norm_src(t), truth
 
 
-def test_nodes(cfg, canon_text):
+class _Res(ast.NodeTransformer):
+    def __init__(self, cfg, node, depth):
+        self.cfg, self.node, self.depth = cfg, node, depth
+
+    def visit_Name(self, n):
+        if isinstance(n.ctx, ast.Load):
+            r = resolve(self.cfg, self.node, n, self.depth)
+            if r is not n:
+                from .pyfront import clone
+                return clone(r)
+        return n
+
+    def visit_Lambda(self, n):
+        return n
+
+    def _comp(self, n):
+        return n
+    visit_ListComp = visit_SetComp = visit_GeneratorExp = visit_DictComp = _comp
+
+
+def resolved_test(cfg, n, depth=4):
+    """the test of node n with local names replaced by their unique reaching
+    definitions (flow-sensitive)."""
+    from .pyfront import clone
+    return _Res(cfg, n, depth).visit(clone(n.ast))
+
+
+def test_nodes(cfg, canon_text, resolved=True):
     out = []
     for n in cfg.nodes:
         if n.kind == 'test' and n.ast is not None:
             c, pol = canon(n.ast, True)
             if c == canon_text:
                 out.append((n, pol))      # pol: truth of canon when T edge taken
+                continue
+            if resolved:
+                c2, pol2 = canon(resolved_test(cfg, n), True)
+                if c2 == canon_text:
+                    out.append((n, pol2))
     return out
+
+
+def _good_edges(cfg, alternatives):
+    good = set()
+    for canon_text, truth in alternatives:
+        for n, pol in test_nodes(cfg, canon_text):
+            good.add((n.id, 'T' if pol == truth else 'F'))
+    return good
 
 
 def guarded(cfg, node, canon_text, truth, start=None):
     """Every path from ``start`` (default entry) to ``node`` takes an edge on
     which the atomic condition ``canon_text`` has value ``truth``."""
-    tn = test_nodes(cfg, canon_text)
-    if not tn:
+    return guarded_any(cfg, node, [(canon_text, truth)], start)
+
+
+def guarded_any(cfg, node, alternatives, start=None):
+    """Every path to ``node`` takes an edge establishing at least one of the
+    (canonical condition, truth) alternatives."""
+    good = _good_edges(cfg, alternatives)
+    if not good:
         return False
-    good = set()
-    for n, pol in tn:
-        lab = 'T' if pol == truth else 'F'
-        good.add((n.id, lab))
 
     def skip(a, lab, b):
         return (a.id, lab) in good
